@@ -458,6 +458,9 @@ def cmd_run(a):
 def cmd_rerun(a):
     rows = [json.loads(ln) for ln in open(a.inp)]
     surv = [r for r in rows if r.get("result") == "survived"]
+    if os.path.exists(a.out):
+        done = {(json.loads(ln).get("file"), json.loads(ln).get("index")) for ln in open(a.out)}
+        surv = [r for r in surv if (r["file"], r["index"]) not in done]
     print("%d survivors" % len(surv), file=sys.stderr)
 
     def again(args):
